@@ -200,6 +200,17 @@ def _single_cell_no_context(case):
             and case.get('target_shape') == [1, 1] and bool(case.get('arrays')))
 
 
+@known_predicate('C13-context-function-reference-array')
+def _context_reference_array(case):
+    """IFERROR / IFNA / IFS lift themselves (`has_array_arg`) and are not wrapped by the decorator that resolves
+    references: an array handed over by a function that returns a reference (OFFSET, INDIRECT) reaches them as an
+    AddressRange, is not taken for an array, and the formula is not evaluated pointwise.  The functions lifted by
+    the decorator resolve references first and are not affected."""
+    f = case.get('formula') or ''
+    return (case.get('call') == 'array-formula' and case.get('lifted') == 'context'
+            and ('OFFSET(' in f or 'INDIRECT(' in f))
+
+
 def run(ctx):
     ensure_impl_on_path()
     import logging
@@ -672,6 +683,9 @@ def lifted_e2e(ctx, fixup):
                         if q[0] != 'ok' or not isinstance(q[1], tuple):
                             break
                         a = fixup(a, 'Div', d)
+                    elif ctx.rng.random() < 0.2:
+                        # the same array handed over by a function that returns a reference
+                        t = ctx.rng.choice([f'OFFSET({t},0,0)', f'INDIRECT("{t}")'])
                 elif (name, p) in LIFT_TABLE_POSITIONS:
                     a = ctx.rng.choice(LIFT_HINTS[(name, p)])
                     t = put(a, c0)
